@@ -27,7 +27,11 @@ class SimpleCookieJar:
 
     def add(self, set_cookie: Optional[str]) -> None:
         if set_cookie:
-            simple_cookie = http.cookies.SimpleCookie(set_cookie)
+            try:
+                simple_cookie = http.cookies.SimpleCookie(set_cookie)
+            except http.cookies.CookieError:
+                # a cookie the parser refuses (e.g. an illegal name) is not stored
+                return
 
             for v in simple_cookie.values():
                 if domain := v.get("domain"):
@@ -44,7 +48,10 @@ class SimpleCookieJar:
 
     def set(self, set_cookie: str) -> None:
         if set_cookie:
-            simple_cookie = http.cookies.SimpleCookie(set_cookie)
+            try:
+                simple_cookie = http.cookies.SimpleCookie(set_cookie)
+            except http.cookies.CookieError:
+                return
 
             for v in simple_cookie.values():
                 if domain := v.get("domain"):
